@@ -270,23 +270,18 @@ def precise_diff(
         days_in_last_month = DAYS_PER_MONTHS[leap][month]
         days_in_month = DAYS_PER_MONTHS[int(is_leap(d2.year))][d2.month]
 
-        if d_diff < days_in_month - days_in_last_month:
-            # We don't have a full month, we calculate days
-            if days_in_last_month < d1.day:
-                d_diff += d1.day
-            else:
-                d_diff += days_in_last_month
-        elif d_diff == days_in_month - days_in_last_month:
-            # We have exactly a full month
-            # We remove the days difference
-            # and add one to the months difference
-            d_diff = 0
-            m_diff += 1
-        else:
-            # We have a full month
-            d_diff += days_in_last_month
+        # The start day as it falls in the month of the end date
+        # (adding months clamps the day to the length of the target month)
+        clamped_day = min(d1.day, days_in_month)
 
-        m_diff -= 1
+        if d_diff + d1.day - clamped_day >= 0:
+            # Once the start day is clamped we have full months
+            d_diff += d1.day - clamped_day
+        else:
+            # We don't have a full month, we count the days
+            # from the start day in the previous month
+            d_diff += d1.day - min(d1.day, days_in_last_month) + days_in_last_month
+            m_diff -= 1
 
     if m_diff < 0:
         m_diff += 12
